@@ -49,7 +49,7 @@ func reframe(g dgram, F []byte, front bool, v scionVariant) dgram {
 	return d
 }
 
-func genReframe(c *lib.Ctx, tag string) {
+func genReframe(c *lib.Ctx, tag string, spaoOnly bool) {
 	if sandbox != "" {
 		return
 	}
@@ -62,6 +62,9 @@ func genReframe(c *lib.Ctx, tag string) {
 		nts, spao bool
 	}
 	confs := []conf{{"nts", true, false}, {"spao", false, true}, {"nts+spao", true, true}, {"plain", false, false}}
+	if spaoOnly {
+		confs = []conf{{"spao", false, true}} // the client clause of C13 only
+	}
 	shapes := []string{"front", "front,genuine", "mirror", "genuine,front", "front,front", "mirror,genuine"}
 	rounds := c.Scale(2, 12)
 	for round := 0; round < rounds; round++ {
